@@ -277,22 +277,51 @@ theorem reload_changed_installs (s : LHState) (c : CfgV) (t : Option Table) (h :
   have : hasChanged s.prev c = true := by simp [hasChanged, hne]
   simp [cfgStep, this, h]
 
-/-- Over every history of (re)starts and reloads (valid or not, changed or not): if a lighthouse exists, a
-configuration is in force (the LAST value that was a configuration since the last start) and the table in force is
-exactly the table `NewCalculatedRemotesFromConfig` builds for it; if none exists, none is in force. -/
-theorem reload_installs_configured (ops : List CfgOp) :
+/-- FULL statement (false for the code as it is, see `reload_installs_configured_full_false`): over every history of
+(re)starts and reloads, if a lighthouse exists the table in force is exactly the table of the configuration in force.
+
+Proved part: the same over every history in which every reload REACHES the `lighthouse.calculated_remotes` block
+(`CfgOp.reachesBlock`: no earlier block of `LightHouse.reload` — advertise_addrs, remote_allow_list, local_allow_list
+— returns an error), values valid or not, changed or not: if a lighthouse exists, a configuration is in force (the
+LAST value that was a configuration since the last start) and the table in force is exactly the table
+`NewCalculatedRemotesFromConfig` builds for it; if none exists, none is in force. -/
+theorem reload_installs_configured_partial (ops : List CfgOp) (hreach : ∀ op ∈ ops, op.reachesBlock = true) :
     match cfgRun none ops, inForce none ops with
     | some st, some cfg => fromConfig cfg = .ok st.tbl
     | none, none => True
     | _, _ => False := by
-  have := inv_run ops none none trivial
+  have := inv_run ops none none trivial hreach
   unfold Nebula.Lemmas.CalcRemoteCfg.Inv at this
   split <;> simp_all
 
+/-- Witness that the full statement fails (known finding `stale-after-failed-reload`): start with section S1; a
+reload carrying section S2 fails in an EARLIER block of `LightHouse.reload` (e.g. an invalid
+lighthouse.remote_allow_list), so S2 is not installed — but `config.C` now remembers S2 as the old value; the
+corrected reload (same S2, the other section repaired) finds `HasChanged("lighthouse.calculated_remotes")` false and
+skips the block: the configuration in force is S2, the table is still S1's. -/
+theorem reload_installs_configured_full_false :
+    let s1 : CfgV := .map [(.ok ⟨⟨.v4, 0x0a801400⟩, 24⟩, .list [.entry (.str (.ok ⟨⟨.v4, 0xac100500⟩, 24⟩)) (.int 4300)])]
+    let s2 : CfgV := .map [(.ok ⟨⟨.v4, 0x0a801e00⟩, 24⟩, .list [.entry (.str (.ok ⟨⟨.v4, 0xac100600⟩, 24⟩)) (.int 4301)])]
+    let ops := [CfgOp.load s1, .reloadEarlierErr s2, .reload s2]
+    ∃ st, cfgRun none ops = some st ∧ inForce none ops = some s2 ∧ fromConfig s1 = .ok st.tbl ∧
+      fromConfig s2 ≠ .ok st.tbl ∧
+      -- a remote is produced for an address of the removed range, none for the configured one
+      addCalculatedRemotes ⟨⟨.v4, 0x64400000⟩, 10⟩ st.tbl ⟨.v4, 0x0a801463⟩ =
+        .ok { added := true, v4 := [(0xac100563, 4300)], v6 := [] } ∧
+      addCalculatedRemotes ⟨⟨.v4, 0x64400000⟩, 10⟩ st.tbl ⟨.v4, 0x0a801e63⟩ =
+        .ok { added := false, v4 := [], v6 := [] } := by
+  refine ⟨_, rfl, by decide, rfl, ?_, by decide, by decide⟩
+  intro h
+  injection h with h
+  injection h with h
+  revert h
+  decide
+
 /-- In particular: when the configuration in force has no `lighthouse.calculated_remotes`, the table is nil. -/
-theorem reload_without_key_clears (ops : List CfgOp) (st : LHState) (h : cfgRun none ops = some st)
+theorem reload_without_key_clears (ops : List CfgOp) (hreach : ∀ op ∈ ops, op.reachesBlock = true)
+    (st : LHState) (h : cfgRun none ops = some st)
     (hf : inForce none ops = some .absent) : st.tbl = none := by
-  have := reload_installs_configured ops
+  have := reload_installs_configured_partial ops hreach
   rw [h, hf] at this
   simp only [fromConfig] at this
   injection this with h'
@@ -315,20 +344,23 @@ theorem add_added_imp (myNet : Prefix) (tbl : Table) (a : Addr) (out : AddOut)
       split at h <;> (cases h; cases hadd)
     | cons c rest => exact ⟨p, c :: rest, c, hmem, by simp, hcont⟩
 
-/-- The property over histories.  For every history of loads / reloads of `lighthouse.calculated_remotes` that
-leaves a lighthouse, and every overlay address: `addCalculatedRemotes` does not panic, and every remote it stores is
+/-- The property over histories (FULL statement: without `hreach`; false for the code as it is by
+`reload_installs_configured_full_false`, whose last two conjuncts are a stale and a missing remote).  Proved part:
+for every history of loads / reloads of `lighthouse.calculated_remotes` in which every reload reaches the block and
+that leaves a lighthouse, and every overlay address: `addCalculatedRemotes` does not panic, and every remote it stores is
 the splice (`Entry.produce`: top bits of the entry's mask address, remaining bits of the overlay address, the
 entry's port) of an entry OF THE CONFIGURATION IN FORCE whose range contains the address, all of one family; if that
 configuration has no entry whose range contains the address — in particular when it has no
 `lighthouse.calculated_remotes` any more — nothing is stored and it returns false. -/
-theorem history_remotes_from_config_in_force (myNet : Prefix) (ops : List CfgOp) (st : LHState) (a : Addr)
+theorem history_remotes_from_config_in_force_partial (myNet : Prefix) (ops : List CfgOp)
+    (hreach : ∀ op ∈ ops, op.reachesBlock = true) (st : LHState) (a : Addr)
     (hrun : cfgRun none ops = some st) (ha : a.WF) :
     ∃ cfg out, inForce none ops = some cfg ∧ addCalculatedRemotes myNet st.tbl a = .ok out ∧
       (∀ r ∈ out.v4, ∃ e ∈ cfgEntries cfg, e.appliesTo a = true ∧ a.fam = .v4 ∧ r = e.produce a) ∧
       (∀ r ∈ out.v6, ∃ e ∈ cfgEntries cfg, e.appliesTo a = true ∧ a.fam = .v6 ∧
           r.1 < 2 ^ 64 ∧ r.2.1 < 2 ^ 64 ∧ (r.1 * 2 ^ 64 + r.2.1, r.2.2) = e.produce a) ∧
       ((∀ e ∈ cfgEntries cfg, e.cidr.contains a = false) → out = { added := false, v4 := [], v6 := [] }) := by
-  have hinv := reload_installs_configured ops
+  have hinv := reload_installs_configured_partial ops hreach
   rw [hrun] at hinv
   cases hf : inForce none ops with
   | none => rw [hf] at hinv; exact hinv.elim
@@ -424,8 +456,10 @@ example :
       inForce none [.load sec, .reload (.nonMap 1), .reload (.nonMap 1)] = some sec ∧
       (cfgStep false st (.nonMap 1)).2 = .unchanged ∧ (cfgStep false st (.nonMap 2)).2 = .errReload) ∧
     -- an invalid initial load leaves no lighthouse
-    cfgRun none [.load (.nonMap 0), .reload sec] = none := by
+    cfgRun none [.load (.nonMap 0), .reload sec] = none ∧
+    -- these histories satisfy the hypothesis of the `_partial` theorems
+    (∀ op ∈ [CfgOp.load sec, .reload .absent, .reload (.nonMap 1)], op.reachesBlock = true) := by
   refine ⟨⟨_, rfl, by decide, by decide⟩, ⟨_, rfl, by decide, by decide, by decide, by decide⟩,
-    ⟨_, rfl, by decide, by decide, by decide⟩, by decide⟩
+    ⟨_, rfl, by decide, by decide, by decide⟩, by decide, by decide⟩
 
 end Nebula.Props.C48
